@@ -29,6 +29,7 @@ def run(chk, ix, tier):
     rules_active.check_provider_known_unknown(chk, ix)
     rules_active.check_exclude_composition(chk, ix)
     rules_active.check_negation_and_values(chk, ix)
+    rules_active.check_provider_learns_later(chk, ix)
     rules_active.check_grouping(chk, ix)
     rules_active.check_tag_pattern(chk, ix)
     rules_active.check_matcher_keeps_provider(chk, ix)
